@@ -164,8 +164,8 @@ def query (qk : Quirks) (h : Hier) (es : List EDecl) (cs : CSem) (fuel : Nat) (q
           if hsz : p.size = 2 then return ((← p[0].getStr?, ← p[1].getStr?) : String × String) else throw "inh"
       | _ => pure []
     -- no inherited attributes: the own-attribute loop (selectAltT); otherwise selectAltI
-    let ty := if inh.isEmpty then selectAltT attrs alts (← getNat q "dflt")
-              else selectAltI attrs inh alts (← getNat q "dflt")
+    let dflt ← getNat q "dflt"
+    let ty := if inh.isEmpty then selectAltT attrs alts dflt else selectAltI attrs inh alts dflt
     return Json.mkObj [("ty", ty)]
   | "alt" =>
     let alts ← (← getArr q "alts").toList.mapM fun a => do
